@@ -8,6 +8,8 @@ import (
 	"strconv"
 	"strings"
 	"time"
+	"unicode"
+	"unicode/utf8"
 
 	"github.com/rqlite/rqlite/v10/command/proto"
 	"github.com/rqlite/rqlite/v10/internal/random"
@@ -70,11 +72,34 @@ func Process(stmts []*proto.Statement, rwrand, rwtime bool) (retErr error) {
 
 		if rewritten {
 			stats.Add(numRewrittenStmts, 1)
-			stmts[i].Sql = rwStmt.String()
+			stmts[i].Sql = statementString(rwStmt)
 		}
 		stmts[i].ForceQuery = ret
 	}
 	return nil
+}
+
+// statementString returns the SQL text of stmt. The String methods of UPDATE and
+// DELETE statements do not include the RETURNING clause, so it is added here.
+func statementString(stmt sql.Statement) string {
+	s := stmt.String()
+	inner := stmt
+	if e, ok := inner.(*sql.ExplainStatement); ok {
+		inner = e.Stmt
+	}
+	var rc *sql.ReturningClause
+	switch n := inner.(type) {
+	case *sql.UpdateStatement:
+		rc = n.ReturningClause
+	case *sql.DeleteStatement:
+		rc = n.ReturningClause
+	}
+	if rc != nil {
+		if r := rc.String(); !strings.HasSuffix(s, r) {
+			s += " " + r
+		}
+	}
+	return s
 }
 
 // ContainsTime returns true if the statement contains a time-related function.
@@ -83,9 +108,9 @@ func Process(stmts []*proto.Statement, rwrand, rwtime bool) (retErr error) {
 func ContainsTime(stmt string) bool {
 	// Since this is a simple substring search, it also matches datetime(
 	// and strftime(.
-	targets := []string{"time(", "date(", "julianday(", "unixepoch(", "timediff("}
+	targets := []string{"time", "date", "julianday", "unixepoch", "timediff"}
 	for _, target := range targets {
-		if strings.Contains(stmt, target) {
+		if containsCall(stmt, target) {
 			return true
 		}
 	}
@@ -96,10 +121,59 @@ func ContainsTime(stmt string) bool {
 // The function performs a lower-case comparison so it is up to the caller to
 // ensure the statement is lower-cased.
 func ContainsRandom(stmt string) bool {
-	targets := []string{"random(", "randomblob("}
+	targets := []string{"random", "randomblob"}
 	for _, target := range targets {
-		if strings.Contains(stmt, target) {
+		if containsCall(stmt, target) {
 			return true
+		}
+	}
+	return false
+}
+
+// containsCall returns true if stmt contains name followed by an opening
+// parenthesis. As in SQL itself, the name may be separated from the parenthesis
+// by whitespace and comments, and may be the tail of a quoted identifier.
+func containsCall(stmt, name string) bool {
+	for from := 0; ; {
+		i := strings.Index(stmt[from:], name)
+		if i < 0 {
+			return false
+		}
+		from += i + len(name)
+		if followedByParen(stmt[from:]) {
+			return true
+		}
+	}
+}
+
+// followedByParen returns true if the first token of s is an opening parenthesis,
+// after skipping one optional closing identifier quote, whitespace and comments.
+func followedByParen(s string) bool {
+	if s != "" && (s[0] == '"' || s[0] == '`') {
+		s = s[1:]
+	}
+	for s != "" {
+		switch {
+		case s[0] == '(':
+			return true
+		case strings.HasPrefix(s, "--"):
+			i := strings.IndexByte(s, '\n')
+			if i < 0 {
+				return false
+			}
+			s = s[i+1:]
+		case strings.HasPrefix(s, "/*"):
+			i := strings.Index(s[2:], "*/")
+			if i < 0 {
+				return false
+			}
+			s = s[2+i+2:]
+		default:
+			r, size := utf8.DecodeRuneInString(s)
+			if !unicode.IsSpace(r) {
+				return false
+			}
+			s = s[size:]
 		}
 	}
 	return false
@@ -127,7 +201,8 @@ type Rewriter struct {
 	randFn func() int64
 	nowFn  func() time.Time
 
-	orderedBy bool
+	jd        string // Julian day of the statement's 'now', fixed for the whole statement
+	orderedBy int    // number of ORDER BY terms the walk is currently inside
 	modified  bool
 	returning bool
 }
@@ -147,6 +222,9 @@ func NewRewriter() *Rewriter {
 // Do rewrites the provided statement. If the statement is rewritten, the second return value is true.
 func (rw *Rewriter) Do(stmt sql.Statement) (sql.Statement, bool, bool, error) {
 	rw.modified = false
+	rw.orderedBy = 0
+	// Ensure the value of 'now' is the same for the duration of the statement.
+	rw.jd = julianDayAsNumberLit(rw.nowFn()).Value
 	node, err := sql.Walk(rw, stmt)
 	if err != nil {
 		return nil, false, false, err
@@ -161,42 +239,56 @@ func (rw *Rewriter) Visit(node sql.Node) (w sql.Visitor, n sql.Node, err error) 
 	case *sql.ReturningClause:
 		rw.returning = true
 	case *sql.OrderingTerm:
-		// NO random() rewriting past this point.
-		rw.orderedBy = true
+		// NO random() rewriting until the end of this term.
+		rw.orderedBy++
 		return rw, node, nil
+	case *sql.Null:
+		// sql.Walk does not descend into the operand of ISNULL and NOTNULL.
+		if n.X, err = rw.walkExpr(n.X); err != nil {
+			return nil, nil, err
+		}
+	case sql.SelectExpr:
+		// sql.Walk does not descend into a SELECT used as an expression.
+		if n.SelectStatement != nil {
+			if _, err := sql.Walk(rw, n.SelectStatement); err != nil {
+				return nil, nil, err
+			}
+		}
+	case *sql.WithClause:
+		// sql.Walk does not descend into common table expressions.
+		for _, cte := range n.CTEs {
+			if cte != nil && cte.Select != nil {
+				if _, err := sql.Walk(rw, cte.Select); err != nil {
+					return nil, nil, err
+				}
+			}
+		}
 	case *sql.Call:
-		// If used, ensure the value is same for the duration of the statement
-		jd := julianDayAsNumberLit(rw.nowFn())
-
-		if rw.RewriteTime && len(n.Args) > 0 &&
+		if rw.RewriteTime &&
 			(strings.EqualFold(n.Name.Name, "date") ||
 				strings.EqualFold(n.Name.Name, "time") ||
 				strings.EqualFold(n.Name.Name, "datetime") ||
 				strings.EqualFold(n.Name.Name, "julianday") ||
 				strings.EqualFold(n.Name.Name, "unixepoch")) {
-			if isNow(n.Args[0]) {
-				n.Args[0] = jd
-			}
+			n.Args = rw.rewriteTimeValue(n.Args, 0)
 			rw.modified = true
-		} else if rw.RewriteTime && len(n.Args) > 1 &&
+		} else if rw.RewriteTime && len(n.Args) > 0 &&
 			strings.EqualFold(n.Name.Name, "strftime") {
-			if isNow(n.Args[1]) {
-				n.Args[1] = jd
-			}
+			n.Args = rw.rewriteTimeValue(n.Args, 1)
 			rw.modified = true
 		} else if rw.RewriteTime && len(n.Args) > 1 &&
 			strings.EqualFold(n.Name.Name, "timediff") {
-			if isNow(n.Args[0]) {
-				n.Args[0] = jd
+			if isNow(n.Args[0]) || isSubsec(n.Args[0]) {
+				n.Args[0] = rw.julianDay()
 			}
-			if isNow(n.Args[1]) {
-				n.Args[1] = jd
+			if isNow(n.Args[1]) || isSubsec(n.Args[1]) {
+				n.Args[1] = rw.julianDay()
 			}
 			rw.modified = true
-		} else if !rw.orderedBy && rw.RewriteRand && strings.EqualFold(n.Name.Name, "random") {
+		} else if rw.orderedBy == 0 && rw.RewriteRand && len(n.Args) == 0 && strings.EqualFold(n.Name.Name, "random") {
 			retNode = &sql.NumberLit{Value: strconv.Itoa(int(rw.randFn()))}
 			rw.modified = true
-		} else if !rw.orderedBy && rw.RewriteRand && strings.EqualFold(n.Name.Name, "randomblob") {
+		} else if rw.orderedBy == 0 && rw.RewriteRand && strings.EqualFold(n.Name.Name, "randomblob") {
 			if len(n.Args) == 1 {
 				lit, ok := n.Args[0].(*sql.NumberLit)
 				if !ok {
@@ -217,9 +309,43 @@ func (rw *Rewriter) Visit(node sql.Node) (w sql.Visitor, n sql.Node, err error) 
 func (rw *Rewriter) VisitEnd(node sql.Node) (sql.Node, error) {
 	switch node.(type) {
 	case *sql.OrderingTerm:
-		rw.orderedBy = false
+		rw.orderedBy--
 	}
 	return node, nil
+}
+
+// rewriteTimeValue makes the time value of a date and time function, which is
+// the argument at index i, independent of the current time. SQLite takes the
+// time value to be 'now' if the time value and all modifiers are omitted, or if
+// 'subsec' is given in place of the time value.
+func (rw *Rewriter) rewriteTimeValue(args []sql.Expr, i int) []sql.Expr {
+	switch {
+	case len(args) < i:
+		return args
+	case len(args) == i:
+		return append(args, rw.julianDay())
+	case isNow(args[i]):
+		args[i] = rw.julianDay()
+	case isSubsec(args[i]):
+		args = append(args[:i+1], args[i:]...)
+		args[i] = rw.julianDay()
+	}
+	return args
+}
+
+func (rw *Rewriter) julianDay() *sql.NumberLit {
+	return &sql.NumberLit{Value: rw.jd}
+}
+
+func (rw *Rewriter) walkExpr(e sql.Expr) (sql.Expr, error) {
+	if e == nil {
+		return nil, nil
+	}
+	n, err := sql.Walk(rw, e)
+	if err != nil {
+		return nil, err
+	}
+	return n.(sql.Expr), nil
 }
 
 func isNow(e sql.Expr) bool {
@@ -227,6 +353,13 @@ func isNow(e sql.Expr) bool {
 		return strings.EqualFold(i.Name, "now")
 	} else if s, ok := e.(*sql.StringLit); ok {
 		return strings.EqualFold(s.Value, "now")
+	}
+	return false
+}
+
+func isSubsec(e sql.Expr) bool {
+	if s, ok := e.(*sql.StringLit); ok {
+		return strings.EqualFold(s.Value, "subsec") || strings.EqualFold(s.Value, "subsecond")
 	}
 	return false
 }
